@@ -73,6 +73,18 @@ class DBProxy(object):
             raise sqlite3.OperationalError("database is locked")
         return self._db.execute(*a, **kw)
 
+    # `with db:` (sqlite3's connection context manager: commit on success, rollback on an exception) --
+    # special methods are looked up on the type, so they must be forwarded explicitly
+    def __enter__(self):
+        self._db.__enter__()
+        return self
+
+    def __exit__(self, et, ev, tb):
+        r = self._db.__exit__(et, ev, tb)
+        if et is None:
+            self._world.on_commit(self._which)
+        return r
+
     def __getattr__(self, n):
         return getattr(self._db, n)
 
